@@ -270,6 +270,12 @@ def build_scenarios(prop, tier, rnd):
             big = [{"op": "put", "k": 1, "c": "A"}, {"op": "abort", "k": 1, "c": "M"}, {"op": "abort", "k": 2, "c": "H"}, {"op": "put", "k": 2, "c": "B"},
                    {"op": "abort", "k": 2, "c": "M"}, {"op": "put", "k": 3, "c": "M"}, {"op": "abort", "k": 3, "c": "M"}, {"op": "abort", "k": 4, "c": "G"},
                    {"op": "reopen"}, {"op": "abort", "k": 1, "c": "H"}, {"op": "put", "k": 4, "c": "C"}]
+            # transactions abandoned by a panic of their owner (unwinding drops them) - same guarantee
+            pan = [{"op": "put", "k": 1, "c": "A"}, {"op": "abort", "k": 1, "c": "B", "panic": True}, {"op": "abort", "k": 2, "c": "G", "panic": True},
+                   {"op": "put", "k": 2, "c": "B"}, {"op": "abort", "k": 2, "c": "M", "panic": True}, {"op": "abort", "k": 3, "c": "E", "panic": True},
+                   {"op": "reopen"}, {"op": "abort", "k": 1, "c": "C", "panic": True}, {"op": "put", "k": 3, "c": "C"}]
+            for ch in range(3):
+                add(pan, {"kt": KTS[ch], "n": [2, 10000, 1][ch], "sync": ch != 1}, {"mode": "plain"}, chunk=ch + 2)
             for ch in range(7 if not q else 4):
                 add(big, {"kt": KTS[ch % len(KTS)], "n": [3, 10000, 1][ch % 3], "sync": True}, {"mode": "plain"}, chunk=ch)
             # very many abandoned transactions in one session (more than any plausible cap on open transactions /
